@@ -78,7 +78,14 @@ def gen_scenario(r):
         sc['follow_bodies'] = [(b'k=%d&n=%s' % (k, nonce.encode())) if fr.startswith(b'POST') else b'' for k, fr in enumerate(follow_reqs)]
     client_payload = b''.join(follow_reqs) if payload_kind == 'http' else (tls_like(r, r.randint(8, 200)) if payload_kind == 'tls' else b'')
     server_payload = b''.join(follow_ress) if payload_kind == 'http' else (tls_like(r, r.randint(8, 200)) if payload_kind == 'tls' else b'')
+    # a CONNECT is not always the first request of its connection: 0..2 ordinary exchanges in front of it, pipelined with it
+    npre = r.pick([0, 0, 0, 1, 2]) if kind == 'connect' else 0
+    pre_req = b''.join(('GET /pre%d-%s HTTP/1.1\r\nHost: %s\r\n\r\n' % (k, nonce, host)).encode() for k in range(npre))
+    pre_res = b''.join(b'HTTP/1.1 200 OK\r\nX-Id: pre%d-%s\r\nContent-Length: 2\r\n\r\nok' % (k, nonce.encode()) for k in range(npre))
+    sc.update(npre=npre, pre_req_len=len(pre_req), pre_res_len=len(pre_res))
     sc.update(head=head, resp=resp, status_line=status_line, client_payload=client_payload, server_payload=server_payload, nfollow=len(follow_reqs))
+    head = pre_req + head
+    resp = pre_res + resp
     # layout of the history
     layout = r.pick(['separate', 'payload_with_head', 'payload_before_response', 'response_cut'])
     if kind == 'upgrade' or status == 101:
@@ -139,9 +146,10 @@ def judge(d, sc):
     errs = []
     calls = d.get('calls', [])
     txs = d.get('tx', [])
-    head_len = len(sc['head'])
-    sl_len = len(sc['status_line'])
-    resp_len = len(sc['resp'])
+    npre = sc.get('npre', 0)
+    head_len = sc.get('pre_req_len', 0) + len(sc['head'])            # offset in the request stream at which the CONNECT request ends
+    sl_len = sc.get('pre_res_len', 0) + len(sc['status_line'])       # offset in the response stream at which the CONNECT answer's status line ends
+    resp_len = sc.get('pre_res_len', 0) + len(sc['resp'])
     status = sc['status']
     is_connect = sc['kind'] == 'connect'
     cum_req = cum_res = 0
@@ -179,12 +187,17 @@ def judge(d, sc):
             if calls[k][2] != TUNNEL:
                 errs.append(('not_tunnel', 'call %d (%s, %d bytes) returned %d after tunnel mode should have been entered at call %d' % (k, 'res' if calls[k][0] else 'req', calls[k][1], calls[k][2], tunnel_expected_from)))
                 break
-        if len(txs) != 1:
-            errs.append(('tx_in_tunnel', '%d transactions reported, 1 expected for a tunnelled connection' % len(txs)))
+        if len(txs) != 1 + npre:
+            errs.append(('tx_in_tunnel', '%d transactions reported, %d expected for a tunnelled connection' % (len(txs), 1 + npre)))
     if sc['payload'] == 'http':
         # parsing resumes: follow-up requests exactly once, complete, in order, paired
         want = sc['nfollow']
-        got = [t for t in txs[1:] if t is not None]
+        got = [t for t in txs[1 + npre:] if t is not None]
+        for k in range(npre):
+            t = txs[k] if k < len(txs) else None
+            xid = [h for h in (t or {}).get('res_headers', []) if h and h[0] == 'X-Id']
+            if t is None or t['uri'] != '/pre%d-%s' % (k, sc['nonce']) or not xid or xid[0][1] != 'pre%d-%s' % (k, sc['nonce']):
+                errs.append(('pre_exchange', 'exchange %d in front of the CONNECT reported as %r with response %r' % (k, t and t['uri'], xid and xid[0][1])))
         ids = [t['uri'] for t in got]
         for k in range(want):
             tag = '/f%d-%s' % (k, sc['nonce'])
@@ -236,7 +249,8 @@ def shard(args):
         cl = '%s/%d/%s/%s' % (sc['kind'], sc['status'], sc['payload'], sc['layout'])
         out['classes'][cl] = out['classes'].get(cl, 0) + 1
         errs = judge(d, sc)
-        tx0 = (d.get('tx') or [None])[0]
+        txl = d.get('tx') or []
+        tx0 = txl[sc.get('npre', 0)] if len(txl) > sc.get('npre', 0) else None      # the CONNECT transaction
         early = bool(tx0 and (tx0.get('tx_trace', 0) & (1 << 2)))
         for pv in d.get('viol', []):
             out['monitor'].append((pv[0], pv[1], pv[2]))
